@@ -1,5 +1,4 @@
 """Default resources for worlds."""
-import copy
 import json
 import functools
 import importlib
@@ -113,6 +112,20 @@ def populate_world_from_dict(world: World, world_dict: dict):
         world.create_entity(*components, entity_id=entity_id)
 
 
+def _copy_containers(value):
+    """Copy nested dictionaries and lists, sharing any other object.
+
+    Objects resolved by dict transformers (modules, resources, ...) are
+    in general not copyable, and shall not be duplicated anyway.
+    """
+    if isinstance(value, dict):
+        return {k: _copy_containers(v) for k, v in value.items()}
+    if isinstance(value, list):
+        return [_copy_containers(v) for v in value]
+
+    return value
+
+
 class WorldFromFileTransformer:
     """Populate a :class:`World` from file.
 
@@ -146,7 +159,7 @@ class WorldFromFileTransformer:
         """Apply all transformers on the given world with given data."""
         for transformer in self.dict_transformers:
             passthrough_dict = data_dict
-            initial_dict = copy.deepcopy(passthrough_dict)
+            initial_dict = _copy_containers(passthrough_dict)
 
             try:
                 # Only the passthrough dict is supposed to be modifiable
